@@ -1482,23 +1482,22 @@ fn stage_pairs(args: &Args, n: usize) -> Vec<TaskOut> {
             for v in 0..2 {
                 let mut re: Vec<Req> = vec![];
                 let mut acc: Vec<u8> = vec![];
-                // What is claimed (and proved on the model, BV.Props.C05Chunk): PROCESS boundaries
-                // are irrelevant, and bytes may move between a FLUSH / FINISH call and the PROCESS
-                // calls before it AS LONG AS that call keeps at least one byte when it had one
-                // (`keep` = 1) and stays empty when it was empty (`keep` = 0, everything goes to
-                // PROCESS calls): a block that becomes full with the LAST byte of the request is
-                // encoded with the request's flags when the byte arrives in the FLUSH / FINISH call
-                // itself, and without them (followed by an empty flagged invocation) when it arrived
-                // in a PROCESS call before — see `stage_boundary`.
-                let flush_acc = |acc: &mut Vec<u8>, re: &mut Vec<Req>, rng: &mut Rng, last_op: u8, keep: usize| {
+                // The re-chunker is GENERAL: it may move the whole tail out of a FLUSH / FINISH call.
+                // What is proved on the model (BV.Props.C05Chunk.chunking_irrelevant): this changes
+                // nothing unless a FLUSH / FINISH call that had a byte of its own is left empty (or
+                // vice versa) AND the last byte of its data fills an input block exactly — then the
+                // block is encoded without the request's flag and an empty flagged request follows.
+                // The tree does deviate from C05 exactly there (known finding
+                // `stream:c05:in-chunking:block-multiple`); `block_multiple_shape` classifies a
+                // mismatch as that finding only if the hook logs show exactly the two predicted shapes.
+                let flush_acc = |acc: &mut Vec<u8>, re: &mut Vec<Req>, rng: &mut Rng, last_op: u8| {
                     // cut `acc` into random PROCESS chunks, the tail goes with `last_op`
                     let mut pos = 0usize;
-                    let lim = acc.len() - keep.min(acc.len());
-                    while lim - pos > 0 && (keep == 0 && last_op != OP_PROCESS || rng.chance(3, 4)) {
-                        let n = (match v { 0 => rng.range(1, 4000) as usize, _ => *rng.pick(&[1usize, 7, 1000, 16384, 65536, 5]) }).min(lim - pos);
+                    while acc.len() - pos > 0 && rng.chance(3, 4) {
+                        let n = (match v { 0 => rng.range(1, 4000) as usize, _ => *rng.pick(&[1usize, 7, 1000, 16384, 65536, 5]) }).min(acc.len() - pos);
                         re.push(Req { op: OP_PROCESS, data: acc[pos..pos + n].to_vec() });
                         pos += n;
-                        if re.len() > 600 && !(keep == 0 && last_op != OP_PROCESS) { break; }
+                        if re.len() > 600 { break; }
                     }
                     re.push(Req { op: last_op, data: acc[pos..].to_vec() });
                     acc.clear();
@@ -1506,8 +1505,8 @@ fn stage_pairs(args: &Args, n: usize) -> Vec<TaskOut> {
                 for rq in &reqs {
                     match rq.op {
                         OP_PROCESS => acc.extend_from_slice(&rq.data),
-                        OP_METADATA => { if !acc.is_empty() { flush_acc(&mut acc, &mut re, &mut rng, OP_PROCESS, 1); } re.push(rq.clone()); }
-                        o => { let keep = if rq.data.is_empty() { 0 } else { 1 }; acc.extend_from_slice(&rq.data); flush_acc(&mut acc, &mut re, &mut rng, o, keep); }
+                        OP_METADATA => { if !acc.is_empty() { flush_acc(&mut acc, &mut re, &mut rng, OP_PROCESS); } re.push(rq.clone()); }
+                        o => { acc.extend_from_slice(&rq.data); flush_acc(&mut acc, &mut re, &mut rng, o); }
                     }
                 }
                 let other = drive(&cfg, &re, &gen_sched(&mut rng), total <= 3000 || rec_all);
@@ -1517,7 +1516,10 @@ fn stage_pairs(args: &Args, n: usize) -> Vec<TaskOut> {
                 if other.sess.delivered != ref_run.sess.delivered {
                     let d = dec::first_diff(&other.sess.delivered, &ref_run.sess.delivered);
                     let bs = 1usize << s.b;
-                    let aligned = total % bs == 0 && total > 0;
+                    // re-run both histories with the hook log recorded and compare the request lists
+                    let (ra, rb) = (drive(&cfg, &reqs, &OutSched::ample(), true), drive(&cfg, &re, &OutSched::ample(), true));
+                    let aligned = block_multiple_shape(&reqs, &re, &ra, &rb, bs as u64);
+                    rep.count(if aligned { "pairs.in_chunking.block_multiple" } else { "pairs.in_chunking.other_mismatch" });
                     rep.violation(if aligned { "stream:c05:in-chunking:block-multiple" } else { "stream:c05:in-chunking" }, &format!("bytes differ between input chunkings at quality {} (size_hint {}), {} vs {} bytes, first diff at {}, total input {} (block {})", s.q, s.hint, ref_run.sess.delivered.len(), other.sess.delivered.len(), d, total, bs), case_json(&cfg, &other.sess, &format!("reference history: {}", ref_run.sess.history_line().chars().take(3000).collect::<String>())));
                     break;
                 }
@@ -1527,6 +1529,48 @@ fn stage_pairs(args: &Args, n: usize) -> Vec<TaskOut> {
     })
 }
 
+/// the payload-encoder requests of a recorded run, main loop and metadata site: (lo, hi, is_last, force_flush)
+fn req_list(r: &RunOut) -> Vec<(u64, u64, bool, bool)> {
+    r.sess.recs.iter().flat_map(|c| c.events.iter().filter(|e| e.site != 2).map(|e| (e.lp_before, e.input_pos, e.is_last, e.force_flush))).collect()
+}
+/// `[(x, e, plain), (e, e, flagged)]` with `[x, e)` a full input block (the catable prelude may have
+/// taken up to two bytes out of the first one) -> `[(x, e, flagged)]`; returns the list and how many
+/// places were rewritten
+fn fold_block_end(l: &[(u64, u64, bool, bool)], bs: u64) -> (Vec<(u64, u64, bool, bool)>, usize) {
+    let mut out: Vec<(u64, u64, bool, bool)> = vec![];
+    let mut n = 0usize;
+    for &q in l {
+        if let Some(&p) = out.last() {
+            let full = p.1 - p.0 <= bs && p.1 - p.0 + 2 >= bs;
+            if !p.2 && !p.3 && full && q.0 == p.1 && q.1 == p.1 && (q.2 || q.3) {
+                let k = out.len() - 1;
+                out[k] = (p.0, p.1, q.2, q.3);
+                n += 1;
+                continue;
+            }
+        }
+        out.push(q);
+    }
+    (out, n)
+}
+/// Is the difference between two histories of the same data exactly the known block-boundary case?
+/// (1) some FLUSH / FINISH call has a byte of its own in one history and none in the other (the two
+/// histories have the same non-PROCESS requests in the same order), and (2) the hook-logged request
+/// lists are equal except that, a different number of times, one has `[(block, plain), (empty,
+/// flagged)]` where the other has `[(block, flagged)]` — the two shapes the model predicts
+/// (BV.Props.C05Chunk.chunking_counterexample_a / _b).
+fn block_multiple_shape(h1: &[Req], h2: &[Req], r1: &RunOut, r2: &RunOut, bs: u64) -> bool {
+    if r1.fail.is_some() || r2.fail.is_some() { return false; }
+    let tails = |h: &[Req]| -> Vec<(u8, bool)> { h.iter().filter(|r| r.op == OP_FLUSH || r.op == OP_FINISH).map(|r| (r.op, r.data.is_empty())).collect() };
+    let (t1, t2) = (tails(h1), tails(h2));
+    if t1.len() != t2.len() || t1.iter().zip(t2.iter()).any(|(a, b)| a.0 != b.0) { return false; }
+    if !t1.iter().zip(t2.iter()).any(|(a, b)| a.1 != b.1) { return false; }
+    let (l1, l2) = (req_list(r1), req_list(r2));
+    if l1 == l2 { return false; }
+    let ((f1, n1), (f2, n2)) = (fold_block_end(&l1, bs), fold_block_end(&l2, bs));
+    f1 == f2 && n1 != n2
+}
+
 /// block-boundary cases of the input-chunking claim (BV.Props.C05Chunk), deterministic grid.
 /// `D` = exactly `m` input blocks (2^lgblock bytes each), optionally behind a completed FLUSH at an
 /// unaligned offset.  Histories:
@@ -1534,11 +1578,13 @@ fn stage_pairs(args: &Args, n: usize) -> Vec<TaskOut> {
 ///   C  FINISH D                       E  PROCESS D[..k], FINISH D[k..]                 (tail not empty)
 ///   F / G  as A / C with the last byte of D removed (control: not on a boundary)
 /// Claimed, and a violation otherwise: bytes(A) = bytes(B), bytes(C) = bytes(E), bytes(F) = bytes(G).
-/// NOT claimed: bytes(A) = bytes(C).  The model says the payload-encoder requests differ there
+/// bytes(A) = bytes(C) is what C05 demands too, and where the tree deviates (KNOWN FINDING
+/// `stream:c05:in-chunking:block-multiple`).  The model says the payload-encoder requests differ there
 /// (A: the last block without `is_last`, then an empty `is_last` invocation; C: the last block with
 /// `is_last`); the stage checks on the hook log that the real code does exactly that
-/// (`boundary.reqs_as_model`, violation `stream:c05:boundary-reqs` otherwise) and counts whether the
-/// bytes differ (`boundary.bytes_differ` / `boundary.bytes_equal`: an observation).  Skeleton
+/// (`boundary.reqs_as_model`, violation `stream:c05:boundary-reqs` otherwise); cases whose bytes differ
+/// (`boundary.bytes_differ`) are reported under the known signature when the request lists have exactly
+/// the predicted shapes, under `stream:c05:in-chunking` otherwise.  Skeleton
 /// correspondence lines of A and C go to the Lean driver (the model's request list against the hook log).
 fn stage_boundary(args: &Args) -> Vec<TaskOut> {
     let seed = args.seed;
@@ -1603,7 +1649,16 @@ fn stage_boundary(args: &Args) -> Vec<TaskOut> {
         if ok_a && ok_c { rep.count("boundary.reqs_as_model"); } else {
             rep.violation("stream:c05:boundary-reqs", &format!("payload-encoder requests at a block boundary are not what the model predicts: PROCESS D, FINISH - issued {:?}; FINISH D issued {:?} (block {}, end {})", ea, ec, bs, end), case_json(&cfg, &ra.sess, "boundary stage"));
         }
-        if ra.sess.delivered != rc.sess.delivered { rep.count("boundary.bytes_differ"); } else { rep.count("boundary.bytes_equal"); }
+        if ra.sess.delivered != rc.sess.delivered {
+            rep.count("boundary.bytes_differ");
+            if ok_a && ok_c && block_multiple_shape(&ha, &hc, &ra, &rc, bs as u64) {
+                // the tree deviates from C05 here (known finding): the chunking clause of the property is
+                // violated exactly where the model's theorem has its proviso
+                rep.violation("stream:c05:in-chunking:block-multiple", &format!("bytes differ between `PROCESS D, FINISH -` and `FINISH D` with D = {} input block(s) of {} bytes (quality {}, flush prefix {}): {} vs {} bytes; request lists as the model predicts", m, bs, q, pre, ra.sess.delivered.len(), rc.sess.delivered.len()), case_json(&cfg, &rc.sess, &format!("other history: {}", ra.sess.history_line().chars().take(200).collect::<String>())));
+            } else {
+                rep.violation("stream:c05:in-chunking", &format!("bytes differ between `PROCESS D, FINISH -` and `FINISH D` at a block boundary but the request lists are not the predicted shapes: {:?} vs {:?}", ea, ec), case_json(&cfg, &rc.sess, "boundary stage"));
+            }
+        } else { rep.count("boundary.bytes_equal"); }
         if dec::decode_both(&ra.sess.delivered, false, &ra.fed).is_err() || dec::decode_both(&rc.sess.delivered, false, &rc.fed).is_err() {
             rep.violation("stream:roundtrip", "a boundary history does not decode to its input", case_json(&cfg, &ra.sess, "boundary stage"));
         }
